@@ -161,7 +161,7 @@ def _upgrade(ctx, rep, tmp):
                 generator.upgrade_policy(args=['--policy', src, '--namespace', 'ns', '--output-file', out, '--format', fmt], conf=conf)
             with open(out) as fh:
                 res = policy.parse_file_contents(fh.read())
-        except Exception as e:     # noqa
+        except (Exception, SystemExit) as e:     # noqa
             rep.fail(key, 'oslopolicy-policy-upgrade does not complete on policy file %r with defaults %r: %s: %s'
                      % (fm, regs, type(e).__name__, e), {'file': fm, 'regs': regs})
             continue
@@ -216,7 +216,7 @@ def _convert(ctx, rep, tmp):
                     generator._convert_policy_json_to_yaml(['ns'], src, out)
             with open(out) as fh:
                 res = policy.parse_file_contents(fh.read())
-        except Exception as e:     # noqa
+        except (Exception, SystemExit) as e:     # noqa
             rep.fail(key, 'oslopolicy-convert-json-to-yaml output for %r is not a loadable policy file: %s: %s'
                      % (fm, type(e).__name__, str(e)[:200]), {'file': fm, 'regs': regs})
             continue
@@ -272,7 +272,7 @@ def _generate_and_redundant(ctx, rep, tmp):
                     generator._generate_policy('ns', out)
             with open(out) as fh:
                 res = policy.parse_file_contents(fh.read())
-        except Exception as e:     # noqa
+        except (Exception, SystemExit) as e:     # noqa
             rep.fail(key, 'oslopolicy-policy-generator output for main file %r / policy.d %r is not a loadable policy file: %s: %s'
                      % (main, dfile, type(e).__name__, str(e)[:200]), {'main': main, 'dir': dfile, 'regs': regs})
             res = None
@@ -292,14 +292,19 @@ def _generate_and_redundant(ctx, rep, tmp):
         before2, enf2, _ = decisions_under(tmp, regs, main, all_names, {'o.yaml': dfile} if dfile else None)
         generator._get_enforcer = lambda ns, enf2=enf2: enf2
         buf = io.StringIO()
-        with contextlib.redirect_stdout(buf), warnings.catch_warnings():
-            warnings.simplefilter('ignore')
-            if (len(main) + len(dfile)) % 2 == 0:
-                cfg.CONF.reset()
-                generator.list_redundant(args=['--namespace', 'ns'])
-                rep.stat('redundant_via_cli_entry')
-            else:
-                generator._list_redundant('ns')
+        try:
+            with contextlib.redirect_stdout(buf), warnings.catch_warnings():
+                warnings.simplefilter('ignore')
+                if (len(main) + len(dfile)) % 2 == 0:
+                    cfg.CONF.reset()
+                    generator.list_redundant(args=['--namespace', 'ns'])
+                    rep.stat('redundant_via_cli_entry')
+                else:
+                    generator._list_redundant('ns')
+        except (Exception, SystemExit) as e:     # noqa
+            rep.fail(key + '|redundant', 'oslopolicy-list-redundant fails for files %r + %r: %s: %s'
+                     % (main, dfile, type(e).__name__, str(e)[:200]), {'main': main, 'dir': dfile, 'regs': regs})
+            continue
         reported = []
         for ln in buf.getvalue().splitlines():
             if ln.startswith('"'):
